@@ -18,16 +18,35 @@ REPO = os.environ.get('PHOTUTILS_REPO', '/repo')
 ALIAS_FUNCS = {'asanyarray', 'asarray', 'atleast_1d', 'atleast_2d', 'atleast_3d', 'squeeze', 'ravel', 'reshape', 'transpose', 'swapaxes',
                'getdata', 'getmaskarray', 'getmask', 'broadcast_to', 'masked_array', 'MaskedArray', 'NDData', 'moveaxis',
                'reshape_as_blocks', 'diagonal', 'rollaxis', 'expand_dims', 'as_strided', 'view_as_blocks'}
-ALIAS_METHODS = {'view', 'reshape', 'ravel', 'squeeze', 'transpose', 'swapaxes', 'get', 'pop', 'setdefault', 'to_value', 'diagonal'}
+ALIAS_METHODS = {'view', 'reshape', 'ravel', 'squeeze', 'transpose', 'swapaxes', 'get', 'pop', 'setdefault', 'to_value', 'diagonal', 'values', 'items', 'popitem'}
 COPY_IF_KW = {'array': ('copy', False), 'Quantity': ('copy', False), 'astype': ('copy', False), 'masked_invalid': ('copy', False),
               'masked_where': ('copy', False), 'masked_equal': ('copy', False), 'masked_less': ('copy', False), 'masked_greater': ('copy', False)}   # alias only with copy=False
 SCALAR_ATTRS = {'fit_params', '_param_maps', 'fit_results', 'fit_info', 'max_label', 'n_apertures', 'xradius', 'yradius', 'npixels', 'shape', 'size', 'ndim', 'dtype', 'unit', 'name', 'names', 'colnames', 'nlabels', 'labels', 'itemsize', 'nbytes', 'isscalar',
                 'param_names', 'n_models', 'fixed', 'bounds', 'tied', 'meta', '__class__', '__name__', 'n_inputs', 'n_outputs', 'kind', 'str'}
 INPLACE_FUNCS = {'copyto', 'putmask', 'place', 'put', 'fill_diagonal', 'put_along_axis', 'shuffle'}
-INPLACE_METHODS = {'sort', 'fill', 'resize', 'partition', 'itemset', 'setfield', 'setflags', 'put', 'rename_column', 'rename_columns', 'remove_column',
+INPLACE_METHODS = {'__iadd__', '__isub__', '__imul__', '__itruediv__', '__ifloordiv__', '__ipow__', '__imod__', '__iand__', '__ior__', '__ixor__', '__setitem__',
+                   'sort', 'fill', 'resize', 'partition', 'itemset', 'setfield', 'setflags', 'put', 'rename_column', 'rename_columns', 'remove_column',
                    'remove_columns', 'add_column', 'add_columns', 'add_row', 'remove_row', 'remove_rows', 'keep_columns', 'replace_column',
                    'reverse', 'add_index', 'remove_indices', 'insert_row', 'update', 'clear', 'append', 'extend', 'insert', 'remove', 'at'}
 # list.append etc. on a parameter mutate the caller's list; on a local list they are harmless (the local is fresh)
+
+
+# numpy ufuncs: a positional argument after the inputs is `out`
+UFUNC_UNARY = {'negative', 'positive', 'absolute', 'abs', 'fabs', 'rint', 'sign', 'conj', 'conjugate', 'exp', 'exp2', 'log', 'log2', 'log10', 'expm1', 'log1p',
+               'sqrt', 'square', 'cbrt', 'reciprocal', 'sin', 'cos', 'tan', 'arcsin', 'arccos', 'arctan', 'sinh', 'cosh', 'tanh', 'arcsinh', 'arccosh', 'arctanh',
+               'degrees', 'radians', 'deg2rad', 'rad2deg', 'floor', 'ceil', 'trunc', 'isfinite', 'isinf', 'isnan', 'signbit', 'logical_not', 'invert', 'bitwise_not',
+               'spacing'}
+UFUNC_BINARY = {'add', 'subtract', 'multiply', 'divide', 'true_divide', 'floor_divide', 'power', 'float_power', 'remainder', 'mod', 'fmod', 'maximum', 'minimum',
+                'fmax', 'fmin', 'hypot', 'arctan2', 'copysign', 'nextafter', 'ldexp', 'logaddexp', 'logaddexp2', 'greater', 'greater_equal', 'less', 'less_equal',
+                'not_equal', 'equal', 'logical_and', 'logical_or', 'logical_xor', 'bitwise_and', 'bitwise_or', 'bitwise_xor', 'left_shift', 'right_shift', 'heaviside'}
+# other numpy functions with a positional `out`: name -> its position
+POSITIONAL_OUT = {'clip': 3, 'round': 2, 'around': 2, 'cumsum': 3, 'cumprod': 3, 'take': 3, 'choose': 2, 'compress': 3, 'dot': 2, 'matmul': 2, 'outer': 2,
+                  'sum': 3, 'prod': 3, 'mean': 3, 'std': 3, 'var': 3, 'min': 2, 'max': 2, 'amin': 2, 'amax': 2, 'nansum': 3, 'nanmean': 3, 'nanmin': 2, 'nanmax': 2,
+                  'median': 2, 'nanmedian': 2, 'percentile': 3, 'nanpercentile': 3, 'quantile': 3, 'nanquantile': 3, 'all': 2, 'any': 2, 'argmax': 2, 'argmin': 2,
+                  'concatenate': 2, 'stack': 2, 'vstack': None, 'einsum': None, 'multiply': 2}
+SHALLOW_COPY_CALLS = {'dict', 'list', 'tuple', 'set', 'frozenset', 'sorted', 'OrderedDict'}     # a new container holding references to the elements
+CONTAINER_CALLS = {'dict', 'list', 'tuple', 'OrderedDict', 'set', 'frozenset', 'zip', 'enumerate', 'reversed', 'sorted', 'iter', 'next'}
+ALL_ARG_ALIAS_FUNCS = {'broadcast_arrays', 'meshgrid', 'atleast_1d', 'atleast_2d', 'atleast_3d', 'broadcast_to', 'ix_'}
 
 
 class Ctx:
@@ -71,6 +90,9 @@ class Translator:
         self.private_params = {}                # private methods of the class being translated -> parameter names
         self.cls_name = None                    # class being translated: self.m(...) resolves to the summary 'Class.m'
         self.current_property = None            # 'self.<name>' while the body of a (lazy)property of that class is translated
+        self.shadowed = set()                   # variables bound to a shallow copy of a container: `<name>@` stands for its elements
+        self.class_methods = set()              # names of the methods of the class being translated
+        self.current_method_ret = None          # 'self.<name>()' while the body of a method of that class is translated
 
     def summary_of(self, f, fname):
         if self.cls_name and isinstance(f, ast.Attribute) and isinstance(f.value, ast.Name) and f.value.id == 'self':
@@ -91,7 +113,8 @@ class Translator:
             d = dotted(e)
             return [d] if d else self.sources(e.value)
         if isinstance(e, ast.Subscript):
-            return self.sources(e.value)
+            base = self.sources(e.value)
+            return base + [b + '@' for b in base if b in self.shadowed]
         if isinstance(e, ast.Starred):
             return self.sources(e.value)
         if isinstance(e, ast.IfExp):
@@ -108,6 +131,11 @@ class Translator:
             f = e.func
             fname = f.attr if isinstance(f, ast.Attribute) else (getattr(f, 'id', None) or '').split('/')[-1]
             kws = {k.arg: k.value for k in e.keywords if k.arg}
+            own = []
+            if (isinstance(f, ast.Attribute) and isinstance(f.value, ast.Name) and f.value.id == 'self' and fname in self.class_methods):
+                own = [f'self.{fname}()']                        # a method of the same class: whatever its return statements alias
+            if own and fname not in ALIAS_METHODS and self.summary_of(f, fname) is None:
+                return own
             if fname == 'getattr' and len(e.args) >= 2:
                 return self.sources(e.args[0]) + (self.sources(e.args[2]) if len(e.args) > 2 else [])
             if fname in COPY_IF_KW:
@@ -118,19 +146,26 @@ class Translator:
                 return []
             is_module_call = (not isinstance(f, ast.Attribute)) or ast.unparse(f.value).split('/')[-1] in ('np', 'numpy', 'np.ma', 'ma', 'u', 'np.lib.stride_tricks')   # (class programs prefix every name with `<method>/`)
             if isinstance(f, ast.Attribute) and not is_module_call and fname in ALIAS_METHODS:
-                return self.sources(f.value)                     # x.reshape(...), x.view(), ...: the receiver
+                base = self.sources(f.value)                     # x.reshape(...), x.view(), d.values() ...: the receiver (and its elements)
+                return base + [b + '@' for b in base if b in self.shadowed]
+            if fname in CONTAINER_CALLS and not isinstance(f, ast.Attribute):
+                # dict(k=x), list((x, y)), zip(x, y) ...: the container / iterator holds references to its arguments
+                return [s for a in e.args for s in self.sources(a)] + [s for v in kws.values() for s in self.sources(v)]
+            if fname in ALL_ARG_ALIAS_FUNCS and is_module_call:
+                return [s for a in e.args for s in self.sources(a)]
             if fname in ALIAS_FUNCS and is_module_call:
                 out = [s for a in e.args[:1] for s in self.sources(a)]
                 if fname in ('masked_array', 'MaskedArray', 'NDData'):
                     out += [s for a in e.args[1:2] for s in self.sources(a)] + [s for k in ('mask', 'data') if k in kws for s in self.sources(kws[k])]
                 return out
             if isinstance(f, ast.Attribute) and fname in ALIAS_METHODS:
-                return self.sources(f.value)
+                base = self.sources(f.value)
+                return base + [b + '@' for b in base if b in self.shadowed]
             if self.summary_of(f, fname) is not None:
                 ret, _ = self.summary_of(f, fname)
                 args = list(e.args)
                 off = 0
-                out = []
+                out = list(own)
                 for i in ret:
                     j = i - off
                     if 0 <= j < len(args):
@@ -138,6 +173,39 @@ class Translator:
                 return out
             return []
         return []
+
+    @staticmethod
+    def is_shallow(v):
+        if isinstance(v, ast.IfExp):
+            return Translator.is_shallow(v.body) and Translator.is_shallow(v.orelse)
+        if isinstance(v, ast.Dict) and not v.keys and not v.values:
+            return True                                          # {} as the other branch of `dict(x) if ... else {}`
+        return (isinstance(v, ast.Call) and isinstance(v.func, ast.Name) and v.func.id.split('/')[-1] in SHALLOW_COPY_CALLS
+                and len(v.args) <= 1 and not any(k.arg is None for k in v.keywords))
+
+    def shallow_elems(self, v):
+        """None unless `v` builds a new container from an existing one; otherwise the variables its ELEMENTS may alias"""
+        if v is None or not self.is_shallow(v) or (isinstance(v, ast.Dict)):
+            return None
+        if isinstance(v, ast.IfExp):
+            a, b = (self.shallow_elems(x) or [] for x in (v.body, v.orelse))
+            return a + b
+        src = [s_ for a in v.args for s_ in self.sources(a)]
+        return src + [s_ + '@' for s_ in src if s_ in self.shadowed] + [s_ for k in v.keywords for s_ in self.sources(k.value)]
+
+    def write_bases(self, e, element=True):
+        """variables through which a store into `e[...]`, an in-place operator on `e` or an `out=e` writes: the dotted base when there
+        is one, otherwise everything the expression may alias (`x.ravel()[0] = v`, `np.asarray(x)[...] = v`, `(a if c else b)[0] = v`).
+        `element`: the operation works IN PLACE on the selected element (`c[i] += 1`, `c[i].sort()`, `out=c[i]`) rather than storing into
+        the container (`c[i] = v`): for a shallow copy of a container that reaches the shared elements `c@`."""
+        depth = 0
+        while isinstance(e, (ast.Subscript, ast.Starred)):
+            depth += isinstance(e, ast.Subscript)
+            e = e.value
+        d = dotted(e)
+        if d:
+            return [d] + ([d + '@'] if element and depth and d in self.shadowed else [])
+        return list(dict.fromkeys(self.sources(e)))
 
     # ---------------- statements
     def emit_assign(self, ctx, target, srcs):
@@ -171,20 +239,26 @@ class Translator:
                             out.append(('assign', ctx.var(f'{fname}/{k.arg}'), ctx.var(src)))
             for k in c.keywords:
                 if k.arg == 'out':
-                    b = base_of(k.value)
-                    if b:
+                    for b in self.write_bases(k.value):
+                        out.append(('write', ctx.var(b), c.lineno))
+            np_call = isinstance(f, ast.Attribute) and ast.unparse(f.value).split('/')[-1] in ('np', 'numpy', 'np.ma', 'ma')
+            if np_call:
+                # a positional `out`
+                pos = 1 if fname in UFUNC_UNARY else 2 if fname in UFUNC_BINARY else POSITIONAL_OUT.get(fname)
+                if pos is not None and len(c.args) > pos:
+                    for b in self.write_bases(c.args[pos]):
                         out.append(('write', ctx.var(b), c.lineno))
             if fname in INPLACE_FUNCS and c.args:
-                b = base_of(c.args[0])
-                if b:
+                for b in self.write_bases(c.args[0]):
                     out.append(('write', ctx.var(b), c.lineno))
             if isinstance(f, ast.Attribute) and fname in INPLACE_METHODS:
                 if fname == 'at' and isinstance(f.value, ast.Attribute) and c.args:      # np.add.at(x, ...)
-                    b = base_of(c.args[0])
+                    bs = self.write_bases(c.args[0])
                 else:
-                    b = base_of(f.value)
-                if b and b != 'self' and not (b.startswith('self.') and fname in ('append', 'extend', 'update', 'clear', 'pop', 'insert', 'remove', 'get', 'setdefault')):
-                    out.append(('write', ctx.var(b), c.lineno))
+                    bs = self.write_bases(f.value)
+                for b in bs:
+                    if b and b != 'self' and not (b.startswith('self.') and fname in ('append', 'extend', 'update', 'clear', 'pop', 'insert', 'remove', 'get', 'setdefault')):
+                        out.append(('write', ctx.var(b), c.lineno))
             if self.summary_of(f, fname) is not None:
                 _, wr = self.summary_of(f, fname)
                 for i in wr:
@@ -206,9 +280,9 @@ class Translator:
             if isinstance(s.op, ast.LShift):
                 pass                                             # x <<= unit rebinds x to a view
             else:
-                b = base_of(s.target)
-                if b and (isinstance(s.target, ast.Subscript) or b not in arrayish):
-                    out.append(('write', ctx.var(b), s.lineno))
+                for b in self.write_bases(s.target):
+                    if b and (isinstance(s.target, ast.Subscript) or b not in arrayish):
+                        out.append(('write', ctx.var(b), s.lineno))
         elif isinstance(s, ast.Expr):
             self.call_effects(ctx, s.value, out)
         elif isinstance(s, ast.Return):
@@ -218,6 +292,9 @@ class Translator:
                 for src in self.sources(s.value):
                     # weak update: the return variable accumulates everything any return statement may alias
                     out.append(('ite', ('assign', ctx.var('<return>'), ctx.var(src)), ('skip',)))
+                    if self.current_method_ret:
+                        # what `self.<name>(...)` returns when called from another method of the class
+                        out.append(('ite', ('assign', ctx.var(self.current_method_ret), ctx.var(src)), ('skip',)))
                     if self.current_property:
                         # a property of the class being translated: reading `self.<name>` elsewhere yields what it returns
                         out.append(('ite', ('assign', ctx.var(self.current_property), ctx.var(src)), ('skip',)))
@@ -228,7 +305,7 @@ class Translator:
         elif isinstance(s, (ast.For, ast.AsyncFor)):
             self.call_effects(ctx, s.iter, out)
             pre = []
-            self.assign_target(ctx, s.target, s.iter, pre)
+            self.assign_target(ctx, s.target, s.iter, pre, iterate=True)
             body = self.seq(pre + [self.block(ctx, s.body, arrayish)])
             out.append(('loop', body))
             if s.orelse:
@@ -256,19 +333,34 @@ class Translator:
                         out.append(('write', ctx.var(b), s.lineno))
         return self.seq(out)
 
-    def assign_target(self, ctx, t, value, out):
+    def assign_target(self, ctx, t, value, out, iterate=False):
         if isinstance(t, (ast.Tuple, ast.List)):
             if isinstance(value, (ast.Tuple, ast.List)) and len(value.elts) == len(t.elts):
                 for tt, vv in zip(t.elts, value.elts):
-                    self.assign_target(ctx, tt, vv, out)
+                    self.assign_target(ctx, tt, vv, out, iterate)
             else:
                 for tt in t.elts:
-                    self.assign_target(ctx, tt, value, out)      # each element may alias what the iterable aliases
+                    self.assign_target(ctx, tt, value, out, iterate)      # each element may alias what the iterable aliases
             return
         if isinstance(t, ast.Starred):
             t = t.value
+        tname = t.id if isinstance(t, ast.Name) else (dotted(t) if isinstance(t, ast.Attribute) and (dotted(t) or '').startswith('self.') else None)
+        sh = self.shallow_elems(value) if tname else None
+        if tname and sh is not None:
+            # a NEW container (dict(x), list(x), sorted(x) ...): stores into it stay local, its elements are shared
+            out.append(('fresh', ctx.var(tname)))
+            out.append(self.emit_assign(ctx, tname + '@', sh))
+            return
+        if tname and tname in self.shadowed:
+            srcs = self.sources(value)
+            out.append(self.emit_assign(ctx, tname, srcs))
+            out.append(self.emit_assign(ctx, tname + '@', [s_ + '@' for s_ in srcs if s_ in self.shadowed]))
+            return
         if isinstance(t, ast.Name):
-            out.append(self.emit_assign(ctx, t.id, self.sources(value)))
+            srcs = self.sources(value)
+            if iterate:                                          # `for a in c`: a is an element of c
+                srcs = srcs + [s_ + '@' for s_ in srcs if s_ in self.shadowed]
+            out.append(self.emit_assign(ctx, t.id, srcs))
         elif isinstance(t, ast.Attribute):
             d = dotted(t)
             if d and d.startswith('self.'):
@@ -276,8 +368,7 @@ class Translator:
             elif d and d != 'self':
                 out.append(('write', ctx.var(d), getattr(t, 'lineno', 0)))               # obj.attr = v mutates obj
         elif isinstance(t, ast.Subscript):
-            b = base_of(t)
-            if b:
+            for b in self.write_bases(t, element=isinstance(t.value, ast.Subscript)):
                 out.append(('write', ctx.var(b), getattr(t, 'lineno', 0)))
                 # storing a reference: the container now aliases the value (x[i] = data keeps data reachable)
 
@@ -407,9 +498,32 @@ def is_private(name):
     return name.startswith('_') and not (name.startswith('__') and name.endswith('__'))
 
 
+def shallow_targets(node):
+    """names (or self.<attr>) assigned from a shallow container copy in this unit, closed under plain `a = b` copies"""
+    names = set()
+    changed = True
+    while changed:
+        changed = False
+        for x in ast.walk(node):
+            if isinstance(x, ast.Assign):
+                v = x.value
+                hit = Translator.is_shallow(v) and not isinstance(v, ast.Dict)
+                if not hit:
+                    d = dotted(v) if isinstance(v, (ast.Name, ast.Attribute)) else None
+                    hit = d in names
+                if hit:
+                    for t in x.targets:
+                        d = t.id if isinstance(t, ast.Name) else (dotted(t) if isinstance(t, ast.Attribute) else None)
+                        if d and d not in names and (isinstance(t, ast.Name) or d.startswith('self.')):
+                            names.add(d)
+                            changed = True
+    return names
+
+
 def translate_function(fn, summaries, cls_name=None):
     tr = Translator(summaries)
     tr.cls_name = cls_name
+    tr.shadowed = shallow_targets(fn)
     ps = params_of(fn)
     ctx = Ctx(ps)
     prog = tr.block(ctx, fn.body, arrayish_names(fn))
@@ -429,6 +543,7 @@ def translate_class(cls, summaries):
     tr = Translator(summaries)
     tr.cls_name = cls.name
     tr.private_params = {m.name: params_of(m) for m in methods if is_private(m.name)}
+    tr.class_methods = {m.name for m in methods}
 
     def body_of(m):
         pre = []
@@ -436,12 +551,15 @@ def translate_class(cls, summaries):
             pre = [('assign', ctx.var(f'{m.name}/{p}'), ctx.var(f'{m.name}::{p}')) for p in params_of(m)]
         ren = Renamer(m.name, set(params_of(m)))
         mm = ren.visit(copy.deepcopy(m))
+        tr.shadowed |= shallow_targets(mm)
         decos = {(d.attr if isinstance(d, ast.Attribute) else getattr(d, 'id', None)) for d in m.decorator_list}
         tr.current_property = f'self.{m.name}' if decos & {'property', 'lazyproperty', 'cached_property'} else None
+        tr.current_method_ret = f'self.{m.name}()'
         try:
             return tr.seq(pre + [tr.block(ctx, mm.body, {ren.rename(n) for n in arrayish_names(m)})])
         finally:
             tr.current_property = None
+            tr.current_method_ret = None
     init = next((m for m in methods if m.name == '__init__'), None)
     others = [m for m in methods if m.name != '__init__']
     alt = None
